@@ -130,7 +130,8 @@ def main(tier, replay, t0):
                 texts.setdefault(key, (os.path.join(x["dir"], "m.rs"), c, x))
     # 2. fixtures and hostile identifiers: generate now
     d = os.path.join(core.WORK, "c01-%s-%s-s%d" % (tier, core.tree_key(), core.seed()))
-    shutil.rmtree(d, ignore_errors=True)
+    for old_dir in glob.glob(os.path.join(core.WORK, "c01-*")):
+        shutil.rmtree(old_dir, ignore_errors=True)  # scratch of earlier trees / seeds
     extra = fixture_cases(tier) + hostile_cases()
     jobs = []
     for c in extra:
